@@ -123,7 +123,7 @@ def r3(cx):
     cx.check(bool(tk) or bool([c for c in rb.calls if "unlock" in c.primary]), "release() drops/unlocks the file handle", "release-noop", rb.where(),
              "LockFile::release no longer drops the handle or unlocks the file")
     # the LOCK path must keep naming the inode every opener locks: it is never unlinked / renamed
-    for b2 in f.bodies.values():
+    for b2 in f.scan_bodies():
         if b2.self_ty == "lockfile::LockFile" or (b2.impl_trait and b2.self_ty == "lockfile::LockFile"):
             bad = [c for c in b2.calls if c.bb in b2.live and f.call_may_reach(c, {"std::fs::remove_file", "std::fs::rename", "std::fs::remove_dir_all"})]
             cx.check(not bad, "`%s` never unlinks or renames the LOCK file" % b2.id, "lock-unlinked|%s" % b2.id, bad[0].where() if bad else b2.where(),
